@@ -18,6 +18,9 @@ EXTENDS Integers, Sequences, FiniteSets, TLC
 
 CONSTANTS L,        \* levels below the root: the memory has 2^L pages
           MaxReq,   \* largest request, in pages (allocateMultiplePages; Allocate always asks for 1)
+          FreeAtReleasedPage,
+                    \* TRUE = seeded change C10e: when the last page of a block is released, freeBlock is called with
+                    \* that page's address instead of the block's first page (blockTracker.initialAddr dropped)
           ParentBitOnlyOnExactFit
                     \* TRUE = as implemented: taking a block off a free list toggles the parent's "merge" bit only
                     \* when the block has exactly the requested size (i == level), not when it is taken to be split
@@ -112,7 +115,8 @@ ReturnPage(p) ==
   /\ LET b == trk[p] IN
      /\ trk' = [q \in DOMAIN trk \ {p} |-> trk[q]]
      /\ IF cnt[b] = 1
-        THEN LET r == MergeUp(b, LevelOfBlock(b), free, split, merge) IN
+        THEN LET a == IF FreeAtReleasedPage THEN p ELSE b
+                 r == MergeUp(a, LevelOfBlock(a), free, split, merge) IN
              /\ free' = r.free /\ split' = r.split /\ merge' = r.merge
              /\ cnt' = [c \in DOMAIN cnt \ {b} |-> cnt[c]]
              /\ blocks' = [c \in DOMAIN blocks \ {b} |-> blocks[c]]
